@@ -1167,7 +1167,10 @@ impl<'a> Run<'a> {
   }
 }
 
-const FRAGS: [&str; 5] = ["a", "b", "c", "d", "e"];
+const FRAGS: [&str; 32] = [
+  "a", "b", "c", "d", "e", "f", "g", "h", "i", "j", "k", "l", "m", "n", "o", "p", "q", "r", "s", "t", "u", "v", "w", "x", "y", "z", "aa",
+  "ab", "ac", "ad", "ae", "af",
+];
 
 impl Engine for StorEngine {
   fn name(&self) -> &'static str {
@@ -1241,11 +1244,16 @@ impl Engine for StorEngine {
     let max_ops = params.get("max_ops").copied().unwrap_or(12) as usize;
     // ---- configuration (swarm) ----
     let n_docs = 1 + ctx::choose(2);
-    let n_frags = 2 + ctx::choose(4);
+    // one run in fifty is a LONG history on documents with up to 32 methods
+    let long = ctx::chance(1, 50);
+    if long {
+      ctx::stat("probe.long_history");
+    }
+    let n_frags = if long { 8 + ctx::choose(25) } else { 2 + ctx::choose(4) };
     let faulty = ctx::choose(4) != 0; // one quarter of the runs is the fault-free configuration
     let (yn, yd) = [(0u32, 1u32), (1, 6), (1, 2)][ctx::choose(3)];
     let bystander = ctx::choose(3) == 0;
-    let n_ops = 1 + ctx::choose(max_ops);
+    let n_ops = if long { 30 + ctx::choose(50) } else { 1 + ctx::choose(max_ops) };
     let keygen_seed = ((ctx::draw_u32() as u64) << 32) | ctx::draw_u32() as u64;
     let keygen = Rc::new(RefCell::new(KeyGen::new(keygen_seed)));
     // a key store may hand out the same key material again (deterministic derivation): two methods with the same
